@@ -4,7 +4,7 @@ MCPats == {RePat(Cat(Bol, Cat(Lit("a"), Eol))), RePat(Lit("K")), RePat(Cat(Perl(
            RePat(Cat(Bol, Cls({"a", "K"}, TRUE))), RePat(Cat(Lit("DOT"), Lit("K"))), RePat(Cat(Lit("LONGS"), Eol)),
            \* texts with a comma: a counted repetition and a class that lists one
            RePat(Cat(Bol, Cat(Rep12(Lit("a")), Eol))), RePat(Cat(Bol, Cat(Lit("K"), Cat(Rep12(Lit("e")), Eol)))), RePat(Cat(Bol, Cat(Cls({"a", "COMMA"}, FALSE), Eol))),
-           PlainPat(<<"a">>), PlainPat(<<"A", "K">>), PlainPat(<<"KELVIN">>), PlainPat(<<"a", "DOT", "K">>),
+           PlainPat(<<"a">>), PlainPat(<<"SLASH", "a">>), PlainPat(<<"a", "SLASH">>), PlainPat(<<"SLASH">>), PlainPat(<<"A", "K">>), PlainPat(<<"KELVIN">>), PlainPat(<<"a", "DOT", "K">>),
            PlainPat(<<"K", "e">>), PlainPat(<<"s", "DOT", "a">>)}
 \* queried destination paths: identifiers (and nested paths) that can be real Go field names
 MCPaths == << <<"a">>, <<"A">>, <<"A", "K">>, <<"a", "K">>, <<"KELVIN">>, <<"K">>, <<"K", "e">>, <<"KELVIN", "e">>,
